@@ -240,6 +240,14 @@ impl Check for C03 {
 			return;
 		}
 		if idx >= NCFG {
+			if idx == NCFG {
+				// "a finite sound reaches Stopped after its last frame" also when the decoder thread of a streaming sound is
+				// stopped inside its last iterations while callbacks consume the ring (the family is shared with C10)
+				pacer::set_mode(pacer::Mode::Pacer);
+				if let Err(p) = catch(|| super::c10::mid_iteration(ctx)) {
+					ctx.fail(format!("panic: {} :: streaming end race", p), "");
+				}
+			}
 			manager_pass(idx - NCFG, ctx);
 			return;
 		}
